@@ -52,7 +52,9 @@ def parse_sri(s):
         except Exception:
             hx = "!" + b64
         out.append((algo, hx, b64))
-    out.sort(key=lambda t: (ALGOS.index(t[0]) if t[0] in ALGOS else 99, t[2]))
+    # ssri orders hashes by algorithm only (a stable sort): several digests of one algorithm keep
+    # the order they were written in
+    out.sort(key=lambda t: ALGOS.index(t[0]) if t[0] in ALGOS else 99)
     return [(a, h) for a, h, _ in out]
 
 
